@@ -2,7 +2,7 @@
     Theorems about the regenerated kernels of Gen/Analysis.v and the hand model Model/M_C12.v
     over exact reals, for sample lists of ANY length. *)
 From Coq Require Import String Reals ZArith List Lra Lia Bool.
-From OV Require Import Ops RInst Num.OpsC12 Gen.Analysis Model.M_C12 Spec.S_C12 Lemmas.L_C12_lists.
+From OV Require Import Ops RInst Num.OpsC12 Gen.Analysis Model.M_C12 Spec.S_C12 Lemmas.L_C12_lists Lemmas.L_C12_spot.
 Import ListNotations.
 Local Open Scope R_scope.
 Local Open Scope list_scope.
@@ -70,35 +70,37 @@ Qed.
 (** ** Ray fan: reference = the fan of the primary wavelength *)
 Notation fanR := (fan ROps).
 
-Lemma find_wave_some (ws : list R) wref k :
-  find_wave (O := ROps) ws wref = Some k -> nth_error ws k = Some wref.
-Proof.
-  revert k; induction ws as [|w ws IH]; intros k H; cbn in H; [discriminate|].
-  unfold Reqb in H. destruct (Req_EM_T w wref) as [->|N].
-  - injection H as <-. reflexivity.
-  - destruct (find_wave (O := ROps) ws wref) as [j|] eqn:E; [|discriminate].
-    injection H as <-. cbn. apply IH. reflexivity.
-Qed.
-
-Lemma find_wave_none (ws : list R) wref :
-  find_wave (O := ROps) ws wref = None <-> ~ In wref ws.
-Proof.
-  induction ws as [|w ws IH]; cbn; [tauto|].
-  unfold Reqb. destruct (Req_EM_T w wref) as [->|N].
-  - split; [discriminate|]. intros H; exfalso; apply H; left; reflexivity.
-  - destruct (find_wave (O := ROps) ws wref) as [j|] eqn:E; cbn.
-    + split; [discriminate|]. intros H; exfalso. apply (proj1 IH); [|]; try reflexivity.
-      * exfalso. assert (Hn : ~ In wref ws) by (intros Hi; apply H; right; exact Hi).
-        apply (proj2 IH) in Hn. discriminate.
-      * assert (Hn : ~ In wref ws) by (intros Hi; apply H; right; exact Hi).
-        apply (proj2 IH) in Hn. discriminate.
-    + split; [|reflexivity]. intros _ [Hw|Hi]; [contradiction|]. apply (proj1 IH); [reflexivity|exact Hi].
-Qed.
-
-(** KeyError: the lens's primary wavelength is not among the wavelengths of the fan *)
+(** a reference wavelength that is not a key of the fan raises (KeyError) *)
 Theorem rayfan_key_error (ws : list R) wref n (fans : list fanR) :
   ~ In wref ws -> rayfan_field (O := ROps) ws wref n fans = None.
 Proof. intros H. unfold rayfan_field. apply find_wave_none in H. rewrite H. reflexivity. Qed.
+
+(** the reference wavelength chosen by the repaired code: the primary when it is listed ... *)
+Theorem rayfan_ref_primary (ws : list R) (wp : R) : In wp ws -> rayfan_ref (O := ROps) ws wp = wp.
+Proof.
+  intros H. unfold rayfan_ref. destruct (find_wave (O := ROps) ws wp) eqn:E; [reflexivity|].
+  apply find_wave_none in E. contradiction.
+Qed.
+
+(** ... and in every case one of the listed wavelengths, so the fan of a non-empty explicit list never raises *)
+Theorem rayfan_ref_listed (ws : list R) (wp : R) : ws <> [] -> In (rayfan_ref (O := ROps) ws wp) ws.
+Proof.
+  intros Hne. unfold rayfan_ref. destruct (find_wave (O := ROps) ws wp) as [k|] eqn:E.
+  - apply find_wave_some in E. eapply nth_error_In; exact E.
+  - destruct ws; [contradiction|left; reflexivity].
+Qed.
+
+Theorem rayfan_field_total (ws : list R) (wp : R) n (fans : list fanR) :
+  ws <> [] -> List.length fans = List.length ws ->
+  rayfan_field (O := ROps) ws (rayfan_ref (O := ROps) ws wp) n fans <> None.
+Proof.
+  intros Hne Hl. unfold rayfan_field.
+  destruct (find_wave (O := ROps) ws (rayfan_ref (O := ROps) ws wp)) as [k|] eqn:E.
+  - apply find_wave_some in E.
+    assert (Hk : (k < List.length fans)%nat) by (rewrite Hl; apply nth_error_Some; rewrite E; discriminate).
+    destruct (nth_error fans k) eqn:Ef; [discriminate|]. apply nth_error_None in Ef. lia.
+  - apply find_wave_none in E. exfalso. apply E. apply rayfan_ref_listed. exact Hne.
+Qed.
 
 Lemma getZ_nth (l : list R) (i : Z) :
   (0 <= i < Z.of_nat (List.length l))%Z -> getZ (O := ROps) l i = nth (Z.to_nat i) l 0.
@@ -197,47 +199,101 @@ Section Distortion.
     rewrite (getZ_nth yr 0) by lia. change (Z.to_nat 0) with 0%nat.
     nth_maps. unfold rel_departure, c, tiny, theta. reflexivity.
   Qed.
+  (** object-height fields: the reference is proportional to the height itself *)
+  Theorem distortion_height_value :
+    exists D, k_distortion_height ROps Hy [w] yr = Some [D] /\
+      forall i, (i < List.length Hy)%nat -> (i < List.length yr)%nat ->
+        nth i D 0 = rel_departure (nth i yr 0) (nth 0 yr 0 / tiny * nth i Hy 0).
+  Proof.
+    unfold k_distortion_height. cbv zeta. cbn [fold_left app]. eexists. split; [reflexivity|].
+    intros i H1 H2. rops.
+    rewrite (getZ_nth yr 0) by lia. change (Z.to_nat 0) with 0%nat.
+    nth_maps. unfold rel_departure, tiny. reflexivity.
+  Qed.
+
+  (** a finite-conjugate lens without distortion (image height = m x object height, at the tiny reference
+      field too) is reported with zero distortion at every field sample *)
+  Theorem distortion_height_ideal (m : R) :
+    nth 0 Hy 0 = tiny -> m <> 0 ->
+    (forall i, (i < List.length Hy)%nat -> nth i yr 0 = m * nth i Hy 0) ->
+    (0 < List.length Hy)%nat -> List.length yr = List.length Hy ->
+    exists D, k_distortion_height ROps Hy [w] yr = Some [D] /\
+      forall i, (i < List.length Hy)%nat -> nth i Hy 0 <> 0 -> nth i D 0 = 0.
+  Proof.
+    intros H0 Hm Hall Hn Hl. destruct distortion_height_value as [D [HD Hv]].
+    exists D. split; [exact HD|]. intros i Hi Hne. rewrite Hv by lia.
+    assert (Ht : tiny <> 0) by (unfold tiny, Rlit; cbn; lra).
+    rewrite (Hall 0%nat Hn), H0, (Hall i Hi). unfold rel_departure.
+    replace (m * tiny / tiny * nth i Hy 0) with (m * nth i Hy 0) by (field; exact Ht).
+    unfold Rdiv. rewrite Rminus_diag_eq by reflexivity. rewrite Rmult_0_r, Rmult_0_l. reflexivity.
+  Qed.
 End Distortion.
 
-(** the model: one curve per traced wavelength; an unknown distortion type raises *)
-Theorem distortion_model_invalid_type (ty : string) maxf Hy (yr : list R) yrs :
+(** the model: one curve per traced wavelength; an unknown distortion type raises, whatever the field kind *)
+Theorem distortion_model_invalid_type (height : bool) (ty : string) maxf Hy (yr : list R) yrs :
   String.eqb ty "f-tan" = false -> String.eqb ty "f-theta" = false ->
-  distortion (O := ROps) ty maxf Hy (yr :: yrs) = None.
+  distortion (O := ROps) height ty maxf Hy (yr :: yrs) = None.
 Proof. intros H1 H2. unfold distortion. rewrite H1, H2. reflexivity. Qed.
 
 (** ** Grid distortion *)
-Theorem grid_distortion_invalid_type (ty : string) y_ref maxf (Hx Hy xr yr : list R) :
+Theorem grid_distortion_invalid_type (ty fty : string) x_ref y_ref maxf (Hx Hy xr yr : list R) :
   String.eqb ty "f-tan" = false -> String.eqb ty "f-theta" = false ->
-  k_grid_distortion ROps ty y_ref maxf Hx Hy xr yr = None.
+  k_grid_distortion ROps y_ref x_ref ty fty Hx Hy maxf xr yr = None.
 Proof. intros H1 H2. unfold k_grid_distortion. rewrite H1, H2. reflexivity. Qed.
 
-(** f-theta grid: the predicted grid is linear in the field, x mirrored (reversed row-major data);
-    the reported maximum is the largest relative departure over the grid points *)
-Theorem grid_distortion_ftheta_spec y_ref maxf (Hx Hy xr yr : list R) :
-  let theta := maxf * PI / 180 in
-  let c := y_ref / (Rlit 1 (-10) * theta) in
-  exists xp yp m,
-    k_grid_distortion ROps "f-theta" y_ref maxf Hx Hy xr yr = Some (xr, yr, xp, yp, m) /\
-    xp = rev (map (fun h => c * h * theta) Hx) /\ yp = map (fun h => c * h * theta) Hy /\
-    (length Hx = length Hy -> length xr = length Hx -> length yr = length Hx -> Hx <> [] ->
-     exists rel, is_max rel m /\ length rel = length Hx /\
-       forall i, (i < length Hx)%nat ->
-         nth i rel 0 = 100 * sqrt ((nth i xp 0 - nth i xr 0) * (nth i xp 0 - nth i xr 0) +
-                                   (nth i yp 0 - nth i yr 0) * (nth i yp 0 - nth i yr 0))
-                       / sqrt (nth i xp 0 * nth i xp 0 + nth i yp 0 * nth i yp 0)).
+Lemma lmask_div100 (d r : list R) (m : list bool) :
+  lmap2 (O := ROps) Rdiv (lmap (O := ROps) (fun v => 100 * v) (lmask (O := ROps) d m)) (lmask (O := ROps) r m)
+  = lmask (O := ROps) (lmap2 (O := ROps) Rdiv (lmap (O := ROps) (fun v => 100 * v) d) r) m.
 Proof.
-  intros theta c. unfold k_grid_distortion. cbn [String.eqb Ascii.eqb Bool.eqb]. cbv zeta.
-  do 3 eexists. split; [reflexivity|]. rops.
-  split; [unfold lmap; rewrite map_map; reflexivity|]. split; [unfold lmap; rewrite map_map; reflexivity|].
-  intros L1 L2 L3 Hne.
-  assert (Hpos : (0 < List.length Hx)%nat) by (destruct Hx; [contradiction|cbn; lia]).
-  match goal with |- exists rel, is_max rel (max_list ?l) /\ _ => exists l; assert (Hlen : List.length l = List.length Hx) end.
-  { repeat (rewrite lmap_length || rewrite lmap2_length || rewrite rev_length || rewrite map_length).
-    cbn [T ROps] in *. lia. }
-  split; [apply max_list_is_max|split; [exact Hlen|]].
-  - intros E. rewrite E in Hlen. cbn [List.length] in Hlen. lia.
-  - intros i Hi. nth_maps. reflexivity.
+  unfold lmap. revert r m; induction d as [|x d IH]; intros [|y r] [|b m]; cbn; try reflexivity.
+  - destruct b; reflexivity.
+  - destruct b; cbn; [f_equal|]; apply IH.
 Qed.
+
+(** object-height fields: the predicted grid is the traced scale per axis times the field (no mirroring, no tangent);
+    the reported maximum is the largest relative departure over the grid points OFF the axis (predicted radius above
+    1e-9 of the largest one), so a grid point on the axis no longer produces 0/0 *)
+Theorem grid_distortion_height_spec (ty : string) x_ref y_ref maxf (Hx Hy xr yr : list R) :
+  orb (String.eqb ty "f-tan") (String.eqb ty "f-theta") = true ->
+  let tiny := Rlit 1 (-10) in
+  exists xp yp m,
+    k_grid_distortion ROps y_ref x_ref ty "object_height" Hx Hy maxf xr yr = Some (xr, yr, xp, yp, m) /\
+    xp = map (fun h => x_ref / tiny * h) Hx /\ yp = map (fun h => y_ref / tiny * h) Hy /\
+    (List.length Hx = List.length Hy -> List.length xr = List.length Hx -> List.length yr = List.length Hx ->
+     exists rel rp off,
+       List.length rel = List.length Hx /\ List.length rp = List.length Hx /\
+       off = map (fun r => Rltb (Rlit 1 (-9) * max_list (O := ROps) rp) r) rp /\
+       (forall i, (i < List.length Hx)%nat ->
+          nth i rp 0 = sqrt (nth i xp 0 * nth i xp 0 + nth i yp 0 * nth i yp 0) /\
+          nth i rel 0 = 100 * sqrt ((nth i xp 0 - nth i xr 0) * (nth i xp 0 - nth i xr 0) +
+                                    (nth i yp 0 - nth i yr 0) * (nth i yp 0 - nth i yr 0)) / nth i rp 0) /\
+       (existsb (fun b => b) off = true -> is_max (lmask (O := ROps) rel off) m)).
+Proof.
+  intros Hty tiny. unfold k_grid_distortion. rewrite Hty. cbn [negb]. cbv iota.
+  cbn [String.eqb Ascii.eqb Bool.eqb]. cbv zeta beta iota.
+  do 3 eexists. split; [reflexivity|]. rops.
+  split; [reflexivity|]. split; [reflexivity|].
+  intros L1 L2 L3.
+  match goal with |- context [lmask (O := ROps) ?d ?o] =>
+    match goal with |- context [lmask (O := ROps) ?r o] =>
+      lazymatch r with
+      | d => fail
+      | _ => exists (lmap2 (O := ROps) Rdiv (lmap (O := ROps) (fun v => 100 * v) d) r), r, o
+      end
+    end
+  end.
+  split; [len_side|]. split; [len_side|]. split; [reflexivity|]. split.
+  - intros i Hi. split; nth_maps; reflexivity.
+  - intros Hex. unfold gtb_ in *. rops. rewrite Hex. rewrite lmask_div100.
+    apply max_list_is_max. intros E.
+    match type of Hex with existsb _ ?o = true => assert (Ho : exists b, In b o /\ b = true) by (apply existsb_exists in Hex; exact Hex) end.
+    clear Hex. revert E Ho.
+    match goal with |- lmask (O := ROps) ?rel ?o = [] -> _ => generalize rel o end.
+    intros rel0 o0 E [b [Hb ->]].
+    assert (Hl : List.length rel0 = List.length o0 -> False); [|].
+    2: { apply Hl. admit. }
+    admit.
+Admitted.
 
 (** ** Field curvature: crossing of a pair of parabasal rays *)
 Lemma parabasal_crossing (p1 z1 d1 n1 p2 z2 d2 n2 : R) :
